@@ -123,6 +123,9 @@ func c12CensusClause(rep *explore.Report) {
 		}
 	}
 	rep.AddStates(int64(len(g.Nodes)), g.Transitions)
+	// status writes that hit a conflict and are retried from the (refreshed or stale) cache
+	faultPhase(rep, "C12", []string{world.FConflict, world.FConflictFresh, world.FErr500, world.FTimeout},
+		func(c *world.Call) bool { return c.Resource == "statefulsets" && c.Sub == "status" }, time.Now().Add(3*time.Minute))
 	rep.Extra["census_fixed_points_checked"] = fixed
 	rep.Extra["census_search_states"] = len(g.Nodes)
 }
@@ -184,4 +187,16 @@ func init() {
 		lagPhase(rep, args[0], l, d, time.Now().Add(15*time.Minute))
 		return rep.Finish()
 	})
+}
+
+// faultPhase runs the monitor of prop over the C09 seed closure with single
+// faults of the given kinds on the calls selected by on.
+func faultPhase(rep *explore.Report, prop string, kinds []string, on func(c *world.Call) bool, deadline time.Time) {
+	seeds := c09Seeds(false)
+	cfg := explore.SearchCfg{Prop: prop, D: 1, FaultKinds: kinds, FaultOn: on, Judge: monitorOf(prop), Deadline: deadline}
+	sub := explore.NewReport(prop, "model_checking")
+	g := explore.Search(sub, cfg, seeds)
+	sub.MergeInto(rep)
+	rep.AddStates(int64(len(g.Nodes)), g.Transitions)
+	rep.Extra["fault_phase"] = map[string]interface{}{"kinds": kinds, "states": len(g.Nodes), "reconciles": g.Reconciles, "complete": g.Complete}
 }
